@@ -70,9 +70,14 @@ func runSolver(ctx context.Context, be Backend, file string, timeoutS int) (stat
 	cmd.Run()
 	secs = time.Since(t0).Seconds()
 	out = buf.String()
-	first := strings.TrimSpace(out)
-	if i := strings.Index(first, "\n"); i >= 0 {
-		first = strings.TrimSpace(first[:i])
+	first := ""
+	for _, ln := range strings.Split(out, "\n") {
+		ln = strings.TrimSpace(ln)
+		if ln == "" || strings.HasPrefix(ln, "WARNING") || strings.HasPrefix(ln, "(warning") {
+			continue
+		}
+		first = ln
+		break
 	}
 	switch first {
 	case "unsat", "sat", "unknown":
